@@ -228,7 +228,9 @@ Bin2AlignmentOK ==
   ~(1 \in AVXS /\ FIX_ALIGN = 0 /\ ALIGN16 /\ spc \in {"captured", "rendering"} /\ props.b > 1)
 
 \* ---- export: one line per (sampled) client transition, carrying the witness history with the expected
-\* observables after every call --------------------------------------------------------------------------------
+\* observables after every call.  Histories are NOT bounded: the state graph is finite without a depth bound
+\* (configurations x run state x streamer step), TLC completes it, and `hist` (hidden by the VIEW) is the path
+\* by which a state was first reached, so every exported line is a real behaviour from Init. ------------------
 ClientLabel == lastAct' \in {"SetFirst", "SetNext", "Start", "Stop", "Frame", "FrameSmall"}
 EmitHist == PrintT(<<"HIST", ToJson([k |-> kind, h |-> hist'])>>)
 EmitSample == ~ClientLabel \/ (RandomElement(1..SampleMod) # 1) \/ EmitHist
